@@ -98,6 +98,11 @@ def tasks(tier):
         cfg = dict(M=M, alphabet=["ok", "x:T", "x:R", "r:R", "x:P"], max_unknown=None,
                    breaker=RECOVERED)
         out.append({"family": "outcome-breaker-recovered", "cfg": cfg, "entry": e, "bound": 1})
+    # the strategy is a composition of library strategies: retry_after_or(adaptive(...))
+    for M, e in itertools.product([2, 3], ENTRIES):
+        cfg = dict(M=M, alphabet=["ok", "x:T", "r:T", "x:P"], max_unknown=None,
+                   strat={"default": "libnested", "per": {}}, strat_menu=[1])
+        out.append({"family": "outcome-library-strategies", "cfg": cfg, "entry": e, "bound": 0})
     # no retry component
     for e in ENTRIES0:
         cfg = dict(M=1, alphabet=["ok"] + [f"x:{k}" for k in "TRSCUPAF"] + ["abort", "kbd", "cancel"],
